@@ -175,6 +175,10 @@ func WideFile() (protoreflect.FileDescriptor, error) {
 	addField(wide, fieldSpec{name: "s_enum", num: 80, typ: tEnum, typeName: q("Mode")})
 	addField(wide, fieldSpec{name: "r_enum", num: 81, typ: tEnum, typeName: q("Mode"), label: rep})
 	addMap(wide, "m_enum", 82, fieldSpec{typ: tEnum, typeName: q("Mode")})
+	// an enum whose zero option is dropped from the schema (no_default): its name must be rejected like any unknown name
+	addField(wide, fieldSpec{name: "s_tone", num: 83, typ: tEnum, typeName: q("Tone")})
+	addField(wide, fieldSpec{name: "r_tone", num: 84, typ: tEnum, typeName: q("Tone"), label: rep})
+	addMap(wide, "m_tone", 85, fieldSpec{typ: tEnum, typeName: q("Tone")})
 	addField(wide, fieldSpec{name: "s_leaf", num: 90, typ: tMsg, typeName: q("Leaf")})
 	addField(wide, fieldSpec{name: "r_leaf", num: 91, typ: tMsg, typeName: q("Leaf"), label: rep})
 	addMap(wide, "m_leaf", 92, fieldSpec{typ: tMsg, typeName: q("Leaf")})
@@ -235,6 +239,17 @@ func WideFile() (protoreflect.FileDescriptor, error) {
 		},
 	}
 
+	tone := &descriptorpb.EnumDescriptorProto{
+		Name: proto.String("Tone"),
+		Value: []*descriptorpb.EnumValueDescriptorProto{
+			{Name: proto.String("TONE_UNSPECIFIED"), Number: proto.Int32(0)},
+			{Name: proto.String("TONE_LOW"), Number: proto.Int32(1)},
+			{Name: proto.String("TONE_HIGH"), Number: proto.Int32(2)},
+		},
+		Options: &descriptorpb.EnumOptions{},
+	}
+	proto.SetExtension(tone.Options, ext_j5pb.E_Enum, &ext_j5pb.EnumOptions{NoDefault: true})
+
 	fdp := &descriptorpb.FileDescriptorProto{
 		Name:    proto.String("verif/wide/v1/wide.proto"),
 		Package: proto.String(pkg),
@@ -244,7 +259,7 @@ func WideFile() (protoreflect.FileDescriptor, error) {
 			"j5/types/any/v1/any.proto", "j5/types/date/v1/date.proto", "j5/types/decimal/v1/decimal.proto",
 		},
 		MessageType: []*descriptorpb.DescriptorProto{wide, leaf, choice, flat, deep},
-		EnumType:    []*descriptorpb.EnumDescriptorProto{mode},
+		EnumType:    []*descriptorpb.EnumDescriptorProto{mode, tone},
 	}
 	fd, err := protodesc.NewFile(fdp, protoregistry.GlobalFiles)
 	if err != nil {
